@@ -17,7 +17,9 @@ C01G == Grammar(
     \* a closure with a rest parameter under map / apply: each call has its own argument list
     "(map (fn [& y] y) (list _1 x 1))", "(apply (fn [x & y] (list x y)) _1 (list x 1))",
     \* two results derived from one list by builtin calls, and the list itself
-    "(let [y (quote (_1 2 3))] (list (concat y (list 1)) (concat y (list 2)) (cons 0 y) y))">>,
+    "(let [y (quote (_1 2 3))] (list (concat y (list 1)) (concat y (list 2)) (cons 0 y) y))",
+    \* a call of something that is not a function, in tail position of a body
+    "(do x (0 _1))">>,
   <<"(if _1 _2)", "(do _1 _2)", "(let [x _1] _2)", "(let [y _1] _2)", "((fn [y] _2) _1)",
     "((fn [& y] _2) _1)", "(+ _1 _2)", "(list _1 _2)", "(f _1 _2)", "(_1 _2)">>,
   <<"(if _1 _2 _3)", "(let [x _1 y _2] _3)", "(let [x _1] _2 _3)", "((fn [x y] _3) _1 _2)",
